@@ -1,8 +1,10 @@
 """C08 — UPnP data types: lossless round trip and exact validation.  Harness."""
 from __future__ import annotations
 
+import calendar
 import datetime as dt
 import math
+import re
 
 from harness import common as C
 
@@ -138,11 +140,59 @@ SIBLING_TYPE = {"dateTime": "dateTime.tz", "dateTime.tz": "dateTime", "time": "t
                 "string": "uri", "uri": "string", "char": "string", "uuid": "string", "bin.hex": "bin.base64", "bin.base64": "bin.hex"}
 
 
+# ---------------------------------------------------------------------- clause 5: which from-wire cases it judges
+# Evidence only: a Python reading of the grammar of C08/Spec.v:spec_iso_in, used to COUNT the cases the clause judged
+# (distribution.iso_clause).  The judgement itself is made in Coq; the flag is shipped with each case and Run.report
+# emits a kind-0 triple (detail 5) if it differs from `spec_iso_in ... = Some _`, so the count cannot drift.
+_ISO_DATE = r"([0-9]{4})-([0-9]{2})-([0-9]{2})"
+_ISO_CLOCK = r"([0-9]{2}):([0-9]{2}):([0-9]{2})"
+_ISO_OFF = r"([+-])([0-9]{2}):?([0-9]{2})"
+_ISO_RE = {
+    "d": [re.compile(_ISO_DATE)],
+    "t": [re.compile(_ISO_CLOCK + "(?:" + _ISO_OFF + ")?")],
+    "dt": [re.compile(_ISO_DATE + "T" + _ISO_CLOCK + "(?:(?P<zulu>[Zz])|" + _ISO_OFF + ")?"), re.compile(_ISO_DATE + " " + _ISO_CLOCK)],
+}
+_ISO_KIND = {"date": "d", "time": "t", "time.tz": "t", "dateTime": "dt", "dateTime.tz": "dt"}
+
+
+def iso_judged(type_name: str, text: str):
+    """None, or the zone notation ('none', 'Z', '+hh:mm', '+hhmm') of a text in the grammar of spec_iso_in."""
+    kind = _ISO_KIND.get(type_name)
+    if kind is None or not isinstance(text, str):
+        return None
+    for rx in _ISO_RE[kind]:
+        m = rx.fullmatch(text)
+        if not m:
+            continue
+        g = [x for x in m.groups()]
+        nums = [x for x in g if x is not None and x.isdigit() and x.isascii()]
+        if kind in ("d", "dt"):
+            y, mo, d = int(nums[0]), int(nums[1]), int(nums[2])
+            nums = nums[3:]
+            if not (1 <= y <= 9999 and 1 <= mo <= 12 and 1 <= d <= calendar.monthrange(y, mo)[1]):
+                return None
+        if kind in ("t", "dt"):
+            h, mi, sec = int(nums[0]), int(nums[1]), int(nums[2])
+            nums = nums[3:]
+            if h > 23 or mi > 59 or sec > 59:
+                return None
+        if "zulu" in m.groupdict() and m.group("zulu"):
+            return "Z"
+        sign = next((x for x in g if x in ("+", "-")), None)
+        if sign is None:
+            return "none"
+        zh, zm = int(nums[0]), int(nums[1])
+        if zh > 23 or zm > 59 or (sign == "-" and zh == 0 and zm == 0):
+            return None
+        return "+hh:mm" if text[-3] == ":" else "+hhmm"
+    return None
+
+
 class Plugin:
     ID = "C08"
     RUN_MODULE = "C08.Run"
     GEN = ["Types", "DateMatchers"]
-    CLAUSES = {1: "roundtrip", 2: "accepts_iff", 3: "rejected_not_stored", 4: "wire_setter"}
+    CLAUSES = {1: "roundtrip", 2: "accepts_iff", 3: "rejected_not_stored", 4: "wire_setter", 5: "iso_spellings"}
     SHARD = 300
     RULE = ("codec cases (to-wire, from-wire, round trip) over all 26 type names x boundary/random values and "
             "valid/malformed spellings, and state-variable histories (declaration with allowed list / range / "
@@ -334,6 +384,25 @@ class Plugin:
                 for clock in ("T00:00:00", "T03:04:05", "T23:59:59", " 12:00:00"):
                     for z in ("", "Z", "z", "+00:00", "+0000", "-00:00", "+01:00", "-0100", "+14:00", "-12:00"):
                         cases.append({"kind": "in", "type": tn, "text": day + clock + z})
+        # clause 5 (iso_spellings): the boundaries of the grammar of C08/Spec.v:spec_iso_in for every date/time type --
+        # first/last day, leap days and their neighbours, first/last second, every zone notation up to the largest
+        # offsets, and the nearest texts outside the grammar
+        for day in ("0001-01-01", "9999-12-31", "2000-02-29", "1900-02-28", "1900-02-29", "2024-02-29", "2023-02-28", "2023-02-29",
+                    "2023-04-30", "2023-04-31", "2023-12-31", "0000-01-01", "2023-00-10", "2023-13-01", "2023-01-00", "2023-01-32"):
+            cases.append({"kind": "in", "type": "date", "text": day})
+        zones = ("", "Z", "z", "+00:00", "+0000", "-00:00", "-0000", "+01:00", "-0100", "+05:30", "-0930", "+23:59", "-23:59",
+                 "+2359", "-2359", "+24:00", "-2400", "+00:60", " +0100")
+        for tn in ("time", "time.tz"):
+            for clock in ("00:00:00", "23:59:59", "12:34:56", "24:00:00", "23:60:00", "23:59:60"):
+                for z in zones:
+                    cases.append({"kind": "in", "type": tn, "text": clock + z})
+        for tn in ("dateTime", "dateTime.tz"):
+            for day in ("2000-02-29", "1900-02-29", "2024-02-29", "2023-02-29"):
+                for z in zones:
+                    cases.append({"kind": "in", "type": tn, "text": day + "T23:59:59" + z})
+            for z in ("+23:59", "-23:59", "+2359", "-2359"):
+                cases.append({"kind": "in", "type": tn, "text": "0001-01-01T00:00:00" + z})
+                cases.append({"kind": "in", "type": tn, "text": "9999-12-31T23:59:59" + z})
         return [c for c in cases if self._printable(c)]
 
     def _printable(self, case):
@@ -472,7 +541,7 @@ class Plugin:
             i = f"IOut {ty} {val_coq(case['value'])}"
             o = f"OOut {res_coq(obs['out'], C.c_str)}"
         elif k == "in":
-            i = f"IIn {ty} {C.c_str(case['text'])}"
+            i = f"IIn {ty} {C.c_str(case['text'])} {C.c_bool(iso_judged(case['type'], case['text']) is not None)}"
             o = f"OIn {res_coq(obs['in'], val_coq)}"
         elif k == "round":
             i = f"IRound {ty} {val_coq(case['value'])}"
@@ -499,7 +568,19 @@ class Plugin:
 
     def summarize(self, cases, obss):
         kinds, types, errs = {}, {}, {}
+        iso = {"from_wire_cases_of_date_time_types": 0, "judged_by_clause_5": 0, "judged_by_type": {}, "judged_by_zone_notation": {},
+               "judged_boundary_days": 0, "judged_distinct_texts": 0}
+        iso_texts = set()
         for c, o in zip(cases, obss):
+            if c["kind"] == "in" and c["type"] in DATE_TYPES:
+                iso["from_wire_cases_of_date_time_types"] += 1
+                z = iso_judged(c["type"], c["text"])
+                if z is not None:
+                    iso["judged_by_clause_5"] += 1
+                    iso["judged_by_type"][c["type"]] = iso["judged_by_type"].get(c["type"], 0) + 1
+                    iso["judged_by_zone_notation"][z] = iso["judged_by_zone_notation"].get(z, 0) + 1
+                    iso["judged_boundary_days"] += c["text"][:10] in ("0001-01-01", "9999-12-31")
+                    iso_texts.add((c["type"], c["text"]))
             kinds[c["kind"]] = kinds.get(c["kind"], 0) + 1
             types[c["type"]] = types.get(c["type"], 0) + 1
             for key in ("out", "in", "w", "back", "created"):
@@ -509,7 +590,8 @@ class Plugin:
             for s in (o.get("steps") or []) if isinstance(o, dict) else []:
                 if s[0][0] == "err":
                     errs[s[0][1]] = errs.get(s[0][1], 0) + 1
-        return {"cases_by_kind": kinds, "cases_by_type": types, "errors_by_class": errs}
+        iso["judged_distinct_texts"] = len(iso_texts)
+        return {"cases_by_kind": kinds, "cases_by_type": types, "errors_by_class": errs, "iso_clause": iso}
 
     def shrink(self, case):
         if case["kind"] == "var":
